@@ -6,8 +6,8 @@
 (* and validation continues.                                                   *)
 EXTENDS FuncCall, Json, IOUtils, TLC
 Lines == ndJsonDeserialize(IOEnv.TRACE)
-VARIABLES l, s
-vars == <<l, s>>
+VARIABLES l, s, nskip
+vars == <<l, s, nskip>>
 E == Lines[l]
 Bad(what) == PrintT(<<"BAD", ToJson([line |-> l, id |-> s.c.id, what |-> what])>>)
 Step == l' = l + 1
@@ -16,24 +16,27 @@ CaseOf(e) == [id |-> e.id, fn |-> e.fn, ar |-> e.ar, ip |-> e.ip, rnd |-> e.rnd,
               cls |-> e.cls, mode |-> e.mode, digc |-> e.digc]
 OutOf(e) == [val |-> e.val, err |-> e.err, dn |-> e.dn, hn |-> e.hn, du |-> e.du, hu |-> e.hu, det |-> e.det]
 
-TCase == /\ E.e = "Case" /\ Step
+TCase == /\ E.e = "Case" /\ Step /\ UNCHANGED nskip
          /\ s' = Issue(CaseOf(E))
          /\ \/ s.pc = "idle" /\ WellFormedCase(CaseOf(E))
             \/ Bad([k |-> "case", pc |-> s.pc])
-TRet == /\ E.e = "Ret" /\ Step
+TRet == /\ E.e = "Ret" /\ Step /\ UNCHANGED nskip
         /\ IF CanReturn(s, E.id, E.fill)
              THEN /\ s' = Return(s)
                   /\ LET wrong == Violated(s.c, OutOf(E))
                      IN wrong = {} \/ Bad([k |-> "outcome", wrong |-> wrong, fill |-> E.fill])
              ELSE s' = s /\ Bad([k |-> "order", ev |-> "Ret"])
-TDead == /\ E.e \in {"Hang", "Crash"} /\ Step
+TDead == /\ E.e \in {"Hang", "Crash"} /\ Step /\ UNCHANGED nskip
          /\ s' = Idle
          /\ Bad([k |-> "noreturn", ev |-> E.e])
-TOther == /\ E.e \notin {"Case", "Ret", "Hang", "Crash"} /\ Step /\ UNCHANGED s
+\* the harness gave up on a function after many hangs: the call was not made (counted)
+TSkipped == /\ E.e = "Skipped" /\ Step /\ s' = Idle /\ nskip' = nskip + 1
+            /\ s.pc = "called" \/ Bad([k |-> "order", ev |-> "Skipped"])
+TOther == /\ E.e \notin {"Case", "Ret", "Hang", "Crash", "Skipped"} /\ Step /\ UNCHANGED <<s, nskip>>
           /\ E.e = "Meta" \/ Bad([k |-> "event", ev |-> E.e])
 
-Init == l = 1 /\ s = Idle
-Next == l <= Len(Lines) /\ (TCase \/ TRet \/ TDead \/ TOther)
+Init == l = 1 /\ s = Idle /\ nskip = 0
+Next == l <= Len(Lines) /\ (TCase \/ TRet \/ TDead \/ TSkipped \/ TOther)
 Spec == Init /\ [][Next]_vars
-Finished == (l = Len(Lines) + 1) => PrintT(<<"DONE", ToJson([n |-> Len(Lines), open |-> s.pc # "idle"])>>)
+Finished == (l = Len(Lines) + 1) => PrintT(<<"DONE", ToJson([n |-> Len(Lines), open |-> s.pc # "idle", skipped |-> nskip])>>)
 =============================================================================
